@@ -29,7 +29,8 @@ def _raw(name, factory, quick, thorough=None, **kw):
 # lengths are the total number of symbolic bytes handed to parse()
 _hs("ClientHello", lambda: M.ClientHello(),
     [3 + 34 + 1 + 2 + 1 + k for k in (0, 2, 3, 8)],
-    [3 + 34 + 1 + 2 + 1 + k for k in range(0, 17)], fixed_prefix=0)
+    # 12 and more free bytes after the fixed part exceed the path budget
+    [3 + 34 + 1 + 2 + 1 + k for k in range(0, 12)], fixed_prefix=0)
 _hs("ServerHello", lambda: M.ServerHello(),
     [3 + 34 + 1 + 2 + 1 + k for k in (0, 2, 6, 8)],
     [3 + 34 + 1 + 2 + 1 + k for k in range(0, 17)])
@@ -129,7 +130,7 @@ _hs("Finished13", lambda: M.Finished((3, 4), 32), [3, 35, 36],
     [3, 34, 35, 36])
 _hs("NextProtocol", lambda: M.NextProtocol(), [3, 5, 9], range(3, 16))
 _hs("EncryptedExtensions", lambda: M.EncryptedExtensions(), [3, 5, 9, 13],
-    range(3, 22))
+    range(3, 17))    # 17 and more bytes exceed the path budget
 _hs("NewSessionTicket13", lambda: M.NewSessionTicket(), [3, 17, 20],
     range(3, 26))
 _hs("NewSessionTicket12", lambda: M.NewSessionTicket1_0(), [3, 9, 12],
